@@ -1089,7 +1089,8 @@ namespace xsimd
     template <class T>
     XSIMD_INLINE typename std::enable_if<std::is_floating_point<T>::value, T>::type fnms(const T& a, const T& b, const T& c) noexcept
     {
-        return -std::fma(a, b, c);
+        // -(a * b) - c: negating the sum instead gives the wrong sign when the result is an exact zero
+        return std::fma(-a, b, -c);
     }
 
     namespace detail
